@@ -10,6 +10,9 @@ pub struct FunctorTable {
     pub obj: Vec<Vec<O>>,
     /// (operation label, source type, target type) -> image diagram (strict representation, JSON)
     pub ops: Vec<(i64, Vec<O>, Vec<O>, Value)>,
+    /// optional lax presentation of the same images (may carry pending unifications), used by the
+    /// lax functor trait only: (operation label, source type, target type) -> lax diagram (JSON)
+    pub lax_ops: Vec<(i64, Vec<O>, Vec<O>, Value)>,
 }
 
 impl FunctorTable {
@@ -20,10 +23,18 @@ impl FunctorTable {
                 .iter()
                 .map(|e| (int(&e["l"]), vec_o(&e["a"]), vec_o(&e["b"]), e["img"].clone()))
                 .collect(),
+            lax_ops: arr(&v["ops"])
+                .iter()
+                .filter(|e| e.get("limg").is_some())
+                .map(|e| (int(&e["l"]), vec_o(&e["a"]), vec_o(&e["b"]), e["limg"].clone()))
+                .collect(),
         }
     }
     pub fn obj(&self, o: O) -> &Vec<O> {
         self.obj.get(o as usize).unwrap_or_else(|| panic!("harness: functor table has no object {}", o))
+    }
+    pub fn lax_op(&self, x: A, a: &[O], b: &[O]) -> Option<&Value> {
+        self.lax_ops.iter().find(|(l, ta, tb, _)| *l == x.0 && ta == a && tb == b).map(|e| &e.3)
     }
     pub fn op(&self, x: A, a: &[O], b: &[O]) -> &Value {
         self.ops
